@@ -195,6 +195,10 @@ def gen_op(rng: random.Random, case: F.Case, tracks, kinds: list[str], always_re
             free = free_pixels(case, tracks, time) if op["time"] is not None else []
             if free and rng.random() < 0.93:
                 op["pixels"] = rng.sample(free, rng.randint(1, min(3, len(free))))
+                if rng.random() < 0.3:
+                    # attributes "copied from another node": values for managed features that the
+                    # annotators must override
+                    op["rp_attrs"] = {str(k): rng.randrange(1, 30) for k in rng.sample([F.K_POS, F.K_AREA], rng.randint(1, 2))}
             else:
                 op["pixels"] = None  # missing segmentation and position -> ValueError
         else:
